@@ -111,8 +111,8 @@ Inductive term :=
 | TmUrl (gq : nat) (body : str)           (* bare / quoted / padded chosen by the layout *)
 | TmHex (d : str)                         (* 3 or 6 hex digits *)
 | TmRgb (g0 : nat) (r : N) (g1 g2 : nat) (g : N) (g3 g4 : nat) (b : N) (g5 : nat)      (* rgb(r, g, b) *)
-| TmFunc (name : str) (g0 : nat) (first : term) (more : list (bool * nat * nat * term)) (g1 : nat)
-                                          (* name( a , b c ): bool = comma (else space) *)
+| TmFunc (name : str) (g0 : nat) (first : term) (more : list (nat * nat * nat * term)) (g1 : nat)
+                                          (* name( a , b c / d ): separator 0 = space, 1 = comma, else slash *)
 | TmCalc (gc : nat) (g0 : nat) (first : cterm) (more : list (cop * nat * nat * cterm)) (g1 : nat)
 | TmURange (v : str).
 
@@ -167,11 +167,15 @@ Fixpoint r_term (lay : layout) (t : term) : list tok :=
       T "NUMBER" (dec g) :: gopt lay g3 ++ ch "," :: gopt lay g4 ++ T "NUMBER" (dec b) :: gopt lay g5 ++ [ch ")"]
   | TmFunc name g0 first more g1 =>
       T "FUNCTION" (name ++ s "(") :: gopt lay g0 ++ r_term lay first ++
-      (fix go (l : list (bool * nat * nat * term)) : list tok :=
+      (fix go (l : list (nat * nat * nat * term)) : list tok :=
          match l with
          | [] => []
-         | (comma, ga, gb, x) :: r =>
-             (if comma then gopt lay ga ++ ch "," :: gopt lay gb else greq lay ga) ++ r_term lay x ++ go r
+         | (k, ga, gb, x) :: r =>
+             match k with
+             | 0 => greq lay ga
+             | 1 => gopt lay ga ++ ch "," :: gopt lay gb
+             | _ => gopt lay ga ++ ch "/" :: gopt lay gb
+             end ++ r_term lay x ++ go r
          end) more ++ gopt lay g1 ++ [ch ")"]
   | TmCalc gc g0 first more g1 =>
       T "FUNCTION" (cased lay gc (s "calc(")) :: gopt lay g0 ++ r_cterm first ::
@@ -221,10 +225,12 @@ Fixpoint m_term (t : term) : js :=
   | TmFunc name _ first more _ =>
       tag "FUNCTION" [JS (lower name ++ s "(");
                       JL (m_term first ::
-                          (fix go (l : list (bool * nat * nat * term)) : list js :=
+                          (fix go (l : list (nat * nat * nat * term)) : list js :=
                              match l with
                              | [] => []
-                             | (comma, _, _, x) :: r => (if comma then [tag "OP" [JS (s ",")]] else []) ++ m_term x :: go r
+                             | (k, _, _, x) :: r =>
+                                 match k with 0 => [] | 1 => [tag "OP" [JS (s ",")]] | _ => [tag "OP" [JS (s "/")]] end ++
+                                 m_term x :: go r
                              end) more)]
   | TmCalc _ _ first more _ =>
       tag "CALC" [JL (m_cterm first ::
